@@ -12,7 +12,7 @@ LEVEL = "exploration"
 RULE = (
     "every executable statement of G(k) with every single deviation D(1;WKM) plus the operator list, plus the scoping family (correlated "
     "sub-queries nested <= 3 levels via EXISTS / IN / scalar comparison x every choice of enclosing alias referred to at each level x "
-    "alias syntax x bare / inside a CTE: 936 queries), dialect sqlite, all rules "
+    "alias syntax x bare / inside a CTE: 936 queries) and the join family (6 join kinds x predicate in ON / USING / WHERE only / absent x 3 select lists x upper / lower case keywords x aliased tables), dialect sqlite, all rules "
     "except ST06 (column reordering) and CV05 (NULL comparison rewrite); executed in stdlib SQLite before and after fixing on "
     "three fixed database instances (empty; NULLs + duplicates; distinct rows). Non-trivial = original executes on every "
     "instance, the fix changed the text, and at least one instance returns rows; distinct inputs by construction."
@@ -48,8 +48,28 @@ def cases(tier):
     if tier == "thorough":
         ss |= set(corpus.G(3))
     ss = sorted((s for s in ss if s.lstrip().upper().startswith(("SELECT", "WITH"))), key=lambda s: (len(s), s))
-    sc = scope_queries()
+    sc = scope_queries() + join_queries()
     return [{"k": "q", "ss": ss[i : i + 16]} for i in range(0, len(ss), 16)] + [{"k": "q", "ss": sc[i : i + 16]} for i in range(0, len(sc), 16)]
+
+
+def join_queries():
+    """Join family: every join kind x where the join predicate lives (ON / USING / only in WHERE / nowhere) x select
+    list x keyword case (the same statement in upper and in lower case) x an extra WHERE conjunct."""
+    out = set()
+    kinds = ["JOIN", "INNER JOIN", "LEFT JOIN", "LEFT OUTER JOIN", "CROSS JOIN", ","]
+    for jk in kinds:
+        for cond in ("ON t.a = u.a", "USING (a)", "WHERE t.a = u.a", "WHERE t.a = u.a AND u.c IS NOT NULL", ""):
+            if jk == "," and cond.startswith(("ON", "USING")):
+                continue
+            if jk == "CROSS JOIN" and cond.startswith(("ON", "USING")):
+                continue
+            for sel in ("t.a, u.c", "*", "t.b, u.c"):
+                q = "SELECT %s FROM t %s u %s" % (sel, jk, cond)
+                q = " ".join(q.split()) + "\n"
+                out.add(q)
+                out.add(q.lower())
+                out.add(q.replace(" u ", " AS u2 ").replace("u.", "u2.").replace("FROM t ", "FROM t AS t9 ").replace("t.", "t9.").replace("AS u2", "u AS u2"))
+    return sorted(out, key=lambda s: (len(s), s))
 
 
 def scope_queries():
@@ -116,7 +136,7 @@ def run_case(case):
             a, b = before[i][1], after[1]
             same = (a == b) if ordered else (sorted(map(repr, a)) == sorted(map(repr, b)))
             if not same:
-                res["fails"].append({"clause": "rows_differ", "features": {}, "detail": {"fixed": fixed[:300], "before": repr(a)[:200], "after": repr(b)[:200], "instance": i}, "case": one})
+                res["fails"].append({"clause": "rows_differ", "features": {"using_with_star": ("USING" in text.upper() and "*" in text)}, "detail": {"fixed": fixed[:300], "before": repr(a)[:200], "after": repr(b)[:200], "instance": i}, "case": one})
                 break
         if any(b[1] for b in before):
             res["nontrivial"] += 1
